@@ -1,5 +1,5 @@
 import HexProofs.Framework.Program
-import HexProofs.Framework.Gen.All
+import HexProofs.Framework.Gen.AllX
 import HexProps.C01
 /-
 C14 – Maintenance operations are idempotent and converge to the batch state.
@@ -137,54 +137,54 @@ theorem C14_partial (k : Kind F) (name : String) (round : Nat) (hk : Covered nam
 over {append, calculate, purge, recalculate, calculate_index(±i) on a candle that holds a reading}
 (`calculate_index` only for kinds without sub-indicators, `indexStepKind`) that runs, a final `calculate()` returns iff the batch run over all candles received returns,
 with the same candles (own readings and helper series). -/
-theorem C14_trees (k : Kind F) (name : String) (round : Nat) (hk : CoveredTree name k)
+theorem C14_trees (k : Kind F) (name : String) (round : Nat) (hk : CoveredTreeX name k)
     (init : List (Candle F)) (hinit : RawInput init) (ops : List (Op F))
-    (hal : ∀ op ∈ ops, op.allowed (indexStepKind k) = true) (s : IndState F)
+    (hal : ∀ op ∈ ops, op.allowed (indexStepKindX k) = true) (s : IndState F)
     (hruns : Runs ({ tree := mkTop k name round, mgr := { cfg := {}, candles := init } } : IndState F) ops s)
     (out : List (Candle F)) :
     candlesOf s.calculate = .ok out ↔
       candlesOf (runBatch (mkTop k name round) {} (init ++ (ops.map Op.added).flatten)) = .ok out := by
   obtain ⟨T, hfull⟩ := hk.spec round
   have hplain : RawInput (init ++ (ops.map Op.added).flatten) :=
-    (gprogInv_runs T (indexStepKind k) hfull ops init _ s hal
+    (gprogInv_runs T (indexStepKindX k) hfull ops init _ s hal
       ⟨rfl, rfl, Gen.resumableAt_plain T.S init hinit⟩ hruns).res.plain
-  rw [T.program_converges (indexStepKind k) hfull init hinit ops hal s hruns out]
+  rw [T.program_converges (indexStepKindX k) hfull init hinit ops hal s hruns out]
   exact (T.batch_iff (MgrSpec.base F) _ hplain out).symm
 
 /-- **`calculate()` again changes nothing, trees**: after a `calculate()` that returned on a fresh
 or resumed state, another one returns the same candles. -/
-theorem calculate_idempotent_trees (k : Kind F) (name : String) (round : Nat) (hk : CoveredTree name k)
+theorem calculate_idempotent_trees (k : Kind F) (name : String) (round : Nat) (hk : CoveredTreeX name k)
     (init : List (Candle F)) (hinit : RawInput init) (ops : List (Op F))
-    (hal : ∀ op ∈ ops, op.allowed (indexStepKind k) = true) (s s₁ : IndState F)
+    (hal : ∀ op ∈ ops, op.allowed (indexStepKindX k) = true) (s s₁ : IndState F)
     (hruns : Runs ({ tree := mkTop k name round, mgr := { cfg := {}, candles := init } } : IndState F) ops s)
     (h : s.calculate = .ok s₁) : candlesOf s₁.calculate = .ok s₁.mgr.candles := by
   obtain ⟨T, hfull⟩ := hk.spec round
   exact T.obj_idempotent _ s s₁
-    (gprogInv_runs T (indexStepKind k) hfull ops init _ s hal
+    (gprogInv_runs T (indexStepKindX k) hfull ops init _ s hal
       ⟨rfl, rfl, Gen.resumableAt_plain T.S init hinit⟩ hruns) h
 
 /-- **`purge()` gives back the raw stream, trees**: it removes the node's readings and its helper
 series and nothing else. -/
-theorem purge_restores_raw_trees (k : Kind F) (name : String) (round : Nat) (hk : CoveredTree name k)
+theorem purge_restores_raw_trees (k : Kind F) (name : String) (round : Nat) (hk : CoveredTreeX name k)
     (init : List (Candle F)) (hinit : RawInput init) (ops : List (Op F))
-    (hal : ∀ op ∈ ops, op.allowed (indexStepKind k) = true) (s : IndState F)
+    (hal : ∀ op ∈ ops, op.allowed (indexStepKindX k) = true) (s : IndState F)
     (hruns : Runs ({ tree := mkTop k name round, mgr := { cfg := {}, candles := init } } : IndState F) ops s) :
     s.purge.mgr.candles = init ++ (ops.map Op.added).flatten := by
   obtain ⟨T, hfull⟩ := hk.spec round
-  have hinv := gprogInv_runs T (indexStepKind k) hfull ops init _ s hal
+  have hinv := gprogInv_runs T (indexStepKindX k) hfull ops init _ s hal
       ⟨rfl, rfl, Gen.resumableAt_plain T.S init hinit⟩ hruns
   unfold IndState.purge
   simp only [hinv.tree]
   exact T.purge_resumableAt _ _ hinv.res
 
 /-- **`recalculate()` reproduces, trees**: right after a `calculate()` that returned. -/
-theorem recalculate_reproduces_trees (k : Kind F) (name : String) (round : Nat) (hk : CoveredTree name k)
+theorem recalculate_reproduces_trees (k : Kind F) (name : String) (round : Nat) (hk : CoveredTreeX name k)
     (init : List (Candle F)) (hinit : RawInput init) (ops : List (Op F))
-    (hal : ∀ op ∈ ops, op.allowed (indexStepKind k) = true) (s s₁ : IndState F)
+    (hal : ∀ op ∈ ops, op.allowed (indexStepKindX k) = true) (s s₁ : IndState F)
     (hruns : Runs ({ tree := mkTop k name round, mgr := { cfg := {}, candles := init } } : IndState F) ops s)
     (h : s.calculate = .ok s₁) : candlesOf s₁.recalculate = .ok s₁.mgr.candles := by
   obtain ⟨T, hfull⟩ := hk.spec round
-  have hinv := gprogInv_runs T (indexStepKind k) hfull ops init _ s hal
+  have hinv := gprogInv_runs T (indexStepKindX k) hfull ops init _ s hal
       ⟨rfl, rfl, Gen.resumableAt_plain T.S init hinit⟩ hruns
   have h1 := gprogInv_calculate T _ s s₁ hinv h
   obtain ⟨_, _, he⟩ := IndState.calculate_ok_engine s s₁ h
